@@ -1360,6 +1360,8 @@ class T1CharString(T2CharString):
         def encodeFixed(value):
             raise TypeError("Type 1 charstrings don't support floating point operands")
 
+        return encodeFixed
+
     def decompile(self):
         if self.bytecode is None:
             return
